@@ -31,11 +31,14 @@ def linesAux : Str → Str → List Str
 def lines (s : Str) : List Str := linesAux s []
 
 /-- text mode reading: `\r\n` and `\r` become `\n` -/
-def univNewlines : Str → Str
-  | [] => []
-  | 13 :: 10 :: r => 10 :: univNewlines r
-  | 13 :: r => 10 :: univNewlines r
-  | c :: r => c :: univNewlines r
+def univAux : Bool → Str → Str      -- the flag: the previous character was a `\r` (already turned into `\n`)
+  | _, [] => []
+  | afterCR, c :: r =>
+    if c == 13 then 10 :: univAux true r
+    else if c == 10 && afterCR then univAux false r
+    else c :: univAux false r
+
+def univNewlines (s : Str) : Str := univAux false s
 
 def dropWs : Str → Str
   | [] => []
